@@ -11,6 +11,7 @@ ap = argparse.ArgumentParser()
 ap.add_argument("--rev", default="HEAD")
 ap.add_argument("--patch", action="append", default=[])
 ap.add_argument("--tier", default="quick")
+ap.add_argument("--sub", action="append", default=[], help="relpath:::old:::new textual substitution (must match once)")
 ap.add_argument("props", nargs="*")
 a = ap.parse_args()
 d = tempfile.mkdtemp(prefix="verif_variant_")
@@ -20,6 +21,16 @@ try:
     tar.wait()
     for p in a.patch:
         subprocess.check_call(["patch", "-s", "-p1", "-d", d, "-i", os.path.abspath(p)])
+    for sub in a.sub:
+        rel, old, new = sub.split(":::")
+        old = old.encode().decode("unicode_escape"); new = new.encode().decode("unicode_escape")
+        fp = os.path.join(d, rel)
+        txt = open(fp).read()
+        if txt.count(old) != 1:
+            print(f"--sub: pattern occurs {txt.count(old)} times in {rel}", file=sys.stderr); sys.exit(3)
+        open(fp, "w").write(txt.replace(old, new))
+        import py_compile
+        py_compile.compile(fp, doraise=True, cfile=os.path.join(d, "_c.pyc"))
     env = dict(os.environ, VERIF_REPO=d, VERIF_NO_WRITE="1")
     props = a.props or ["--all"]
     rc = 0
